@@ -20,6 +20,7 @@
 //@ harness k2_parse_other_rest  tier=quick kind=complete fn=src/commands.rs::parse(every-other-first-byte,empty-payload)
 //@ harness k2_handshake_fixed  tier=quick kind=complete fn=src/commands.rs::client_handshake(fixed-offset-fields,SSL-request-path)
 //@ harness k2_handshake_user   tier=quick kind=bounded bound=scanned-region-at-most-12-bytes,memchr-replaced-by-its-specification fn=src/commands.rs::client_handshake(user-name)
+//@ harness k2_handshake_user_any tier=quick kind=complete fn=src/commands.rs::client_handshake(user-name,any-length)
 //@ clause C02.parse.table    parse(p) follows the command table: byte -> variant, text commands carry p[1..] by pointer and length, ids little-endian at fixed offsets
 //@ clause C02.parse.reject   unknown command bytes, empty payloads and truncated fixed parts yield Err (never a variant)
 //@ clause C08.execute        EXECUTE: stmt = le32(p[1..5]), flags and iteration count skipped, params = p[10..]
@@ -287,6 +288,87 @@ pub fn k2_handshake_user() {
         (Err(_), Some(_)) => vk_assert!(false, "[C11.handshake.user] well-formed handshake response rejected"),
         (Err(_), None) => {
             vk_cover!(true, "cover: unterminated user name rejected");
+        }
+    }
+}
+
+
+// ---- the user-name scan for payloads of ANY length (complete; no loop anywhere).
+// nom's take_until ends in memchr. Its specification -- "Some(k): hay[k] == c and no c before k; None: no c at
+// all" -- quantifies over positions. Here the quantifier is instantiated at ONE arbitrary index J, chosen
+// nondeterministically before the call and never constrained: the stub assumes the specification at J only
+// (which the real memchr satisfies for every J), and the harness asserts its claims at the same J. Since J is
+// arbitrary, the claims hold at every index (forall-introduction), for inputs of symbolic length up to 2^40.
+static mut K2_J: usize = 0;
+pub fn find_substring_at_j<'a: 'a, 'b: 'b>(hay: &&'a [u8], needle: &'b [u8]) -> Option<usize> {
+    if needle.len() != 1 {
+        return None;
+    }
+    let c = needle[0];
+    let j = unsafe { K2_J };
+    let found: bool = vk::any();
+    if found {
+        let k: usize = vk::any();
+        vk::assume(k < hay.len());
+        vk::assume(hay[k] == c);
+        vk::assume(!(j < k) || hay[j] != c);
+        Some(k)
+    } else {
+        vk::assume(!(j < hay.len()) || hay[j] != c);
+        None
+    }
+}
+
+#[cfg(kani)]
+#[kani::proof]
+#[kani::stub(std::fmt::format, fmt_stub)]
+#[kani::stub(<&[u8] as nom::FindSubstring<&[u8]>>::find_substring, find_substring_at_j)]
+#[kani::unwind(6)]
+pub fn k2_handshake_user_any() {
+    let n: usize = vk::any();
+    vk::assume(n <= (1usize << 40));
+    let v = lazy_bytes(n);
+    let p = &v[..];
+    let after_tls: bool = vk::any();
+    let proto41 = n >= 2 && (p[1] & 0x02) != 0;
+    // the user name is scanned unless this is the plaintext SSL request
+    vk::assume(!(proto41 && !after_tls && (p[1] & 0x08) != 0));
+    let off = if proto41 { 32 } else { 5 };
+    let j: usize = vk::any();
+    unsafe { K2_J = j; }
+    let r = noerr(client_handshake(p, after_tls));
+    if n < off {
+        vk_assert!(r.is_err(), "[C11.handshake.fixed] truncated handshake accepted");
+        return;
+    }
+    match r {
+        Ok((rest, h)) => {
+            let u = match h.username {
+                Some(u) => u,
+                None => {
+                    vk_assert!(false, "[C11.handshake.user] user name missing");
+                    return;
+                }
+            };
+            let k = u.len();
+            vk_cover!(k == 0, "cover: empty user name");
+            vk_cover!(k > 70000, "cover: a user name longer than 70000 bytes");
+            vk_cover!(!proto41, "cover: 3.20 layout");
+            vk_assert!(u.as_ptr() == unsafe { p.as_ptr().add(off) }, "[C11.handshake.user] user name does not start right after the fixed part");
+            vk_assert!(off + k < n && p[off + k] == 0, "[C11.handshake.user] user name is not terminated by a NUL of the payload");
+            vk_assert!(!(j < k) || p[off + j] != 0, "[C11.handshake.user] user name extends beyond the FIRST NUL");
+            if proto41 {
+                vk_assert!(rest.as_ptr() == unsafe { p.as_ptr().add(off + k + 1) } && rest.len() == n - off - k - 1, "[C11.handshake.user] remainder does not start after the NUL (4.1)");
+                let cap = u32::from_le_bytes([p[0], p[1], p[2], p[3]]);
+                vk_assert!(h.capabilities == CapabilityFlags::from_bits_truncate(cap), "[C11.handshake.fixed] capability mask differs (4.1)");
+            } else {
+                let cap = u16::from_le_bytes([p[0], p[1]]) as u32;
+                vk_assert!(h.capabilities == CapabilityFlags::from_bits_truncate(cap), "[C11.handshake.fixed] capability mask differs (3.20)");
+            }
+        }
+        Err(_) => {
+            vk_cover!(n > off + 70000, "cover: a long unterminated user name is rejected");
+            vk_assert!(!(j < n - off) || p[off + j] != 0, "[C11.handshake.user] well-formed handshake response rejected (the payload has a NUL after the fixed part)");
         }
     }
 }
